@@ -1,9 +1,82 @@
 import Driver.Util
-open Lean Replicat
+import Driver.Repo
+import ReplicatModel.Access
+open Lean Replicat Replicat.Access
 namespace Driver.HAccess
-/-- requests `access.*` -/
+def parseKind (s : String) : Except String Kind :=
+  match s with
+  | "independent" => pure .independent
+  | "shared" => pure .shared
+  | "clone" => pure .clone
+  | _ => throw s!"bad kind {s}"
+
+def parseAddKey (j : Json) : Except String AddKey := do
+  pure ⟨← getNat j "base", ← parseKind (← getStr j "kind"), ← getNat j "password", ← getNat j "cfg"⟩
+
+def userJson (u : Option Repo.User) : Json :=
+  match u with
+  | some u => Json.arr #[jnat u.key, jnat u.fam]
+  | none => Json.null
+
+def optNat (o : Option Nat) : Json := match o with | some t => jnat t | none => Json.null
+
+/-- one query of `access.observe` against a fixed store: what a user's listing / restore / delete decision returns -/
+def observeOne (enc : Bool) (s : Repo.Store) (q : Json) : Except String Json := do
+  let kind ← getStr q "kind"
+  let u ← parseUser (← q.getObjVal? "user")
+  let sre ← parsePred q "sre"
+  let fre ← parsePred q "fre"
+  match kind with
+  | "list" =>
+    match Repo.listSnapshots enc u sre s with
+    | .ok rows => pure (Json.mkObj [("rows", Json.arr (rows.map fun r => Json.arr #[jnat r.sid, optNat r.ts, optNat r.files]).toArray), ("error", Json.null)])
+    | .error e => pure (Json.mkObj [("error", errJson e)])
+  | "listfiles" =>
+    match Repo.listFiles enc u sre fre s with
+    | .ok rows => pure (Json.mkObj [("rows", Json.arr (rows.map fun r => natArr [r.1, r.2.1, r.2.2]).toArray), ("error", Json.null)])
+    | .error e => pure (Json.mkObj [("error", errJson e)])
+  | "restore" =>
+    match Repo.restore enc u sre fre s with
+    | .ok fs => pure (Json.mkObj [("files", Json.arr (fs.map fileJson).toArray), ("error", Json.null)])
+    | .error e => pure (Json.mkObj [("error", errJson e)])
+  | "deleteplan" =>
+    let sids ← getNatList q "sids"
+    match Repo.deletePlan enc u sids s with
+    | .ok p => pure (Json.mkObj [("snaps", Json.arr (p.snaps.map nameJson).toArray), ("chunks", Json.arr (p.chunks.map nameJson).toArray), ("error", Json.null)])
+    | .error e => pure (Json.mkObj [("error", errJson e)])
+  | _ => throw s!"bad query kind {kind}"
+
+/-- requests `access.*`:
+`access.observe` — `{enc, store, queries: [{kind: list|listfiles|restore|deleteplan, user, sre?, fre?, sids?}]}`: the model's
+`listSnapshots` / `listFiles` / `restore` / `deletePlan` for several users and filters on ONE store (parsed once).
+`access.graph` — build the key graph of `init(password, cfg)` followed by `steps` (add-key independent / shared / clone issued
+by the holder of entry `base`); reply: per entry `[keyId, fam]` as unlocked with its own password, whether the private section
+is sealed, and for every `attempts` pair `[entry index, password]` the user the unlock yields or null (DecryptionError). -/
 def handleAccess (op : String) (j : Json) : Except String Json := do
   match op with
+  | "access.observe" =>
+    let enc ← (getBool j "enc" <|> pure true)
+    let s ← parseStore (← j.getObjVal? "store")
+    let qs ← getArr j "queries"
+    let res ← qs.toList.mapM (observeOne enc s)
+    pure (Json.mkObj [("results", Json.arr res.toArray)])
+  | "access.graph" =>
+    let pw ← getNat j "password"
+    let cfg ← getNat j "cfg"
+    let steps ← (← getArr j "steps").toList.mapM parseAddKey
+    let g := build symKdf pw cfg steps
+    let attempts ← (← getArr j "attempts").toList.mapM fun a => do
+      match (← a.getArr?).toList with
+      | [i, p] => pure ((← i.getNat?), (← p.getNat?))
+      | _ => throw "bad attempt"
+    let own := g.entries.map fun e => userJson (userOf symKdf e e.password)
+    let sealed := g.entries.map fun e => match e.file.priv with | .enc .. => Json.bool true | .plain _ => Json.bool false
+    let res := attempts.map fun (i, p) =>
+      match g.entries[i]? with
+      | some e => userJson (userOf symKdf e p)
+      | none => Json.str "no such entry"
+    pure (Json.mkObj [("entries", Json.arr own.toArray), ("sealed", Json.arr sealed.toArray), ("unlock", Json.arr res.toArray),
+                      ("salts", natArr (g.entries.map (·.file.salt))), ("cfgs", natArr (g.entries.map (·.file.cfg)))])
   | _ => throw s!"unknown op {op}"
 
 end Driver.HAccess
